@@ -151,3 +151,136 @@ pub fn diff(bytes: &[u8]) -> Result<&'static str, String> {
         (Res::Ok(e), Out::Err(msg)) => Err(format!("expected {} got Err({}) -- rule {} data {}", e, msg.chars().take(120).collect::<String>(), r, d)),
     }
 }
+
+// ------------------------------------------------------------------------------------------------ operator-family targets
+//
+// Text-shaped inputs, so that libFuzzer's byte mutations, compare tracing and dictionary act directly on the operand
+// strings: line 0 selects the operator (first byte) and the operand route (second byte), every further line is one
+// operand - the JSON value it spells if it parses as JSON, the raw line as a string otherwise (`12px`, ` 0x1F `).
+
+#[derive(Clone, Copy, PartialEq, Debug)]
+pub enum Family {
+    Eq,
+    Seq,
+    Rel,
+    Arith,
+    Coll,
+    Str,
+    Path,
+    Missing,
+}
+
+pub const FAMILY_TARGETS: &[&str] = &["fz_eq", "fz_seq", "fz_rel", "fz_arith", "fz_coll", "fz_str", "fz_path", "fz_missing"];
+
+pub fn family_of(target: &str) -> Option<Family> {
+    Some(match target {
+        "fz_eq" => Family::Eq,
+        "fz_seq" => Family::Seq,
+        "fz_rel" => Family::Rel,
+        "fz_arith" => Family::Arith,
+        "fz_coll" => Family::Coll,
+        "fz_str" => Family::Str,
+        "fz_path" => Family::Path,
+        "fz_missing" => Family::Missing,
+        _ => return None,
+    })
+}
+
+fn family_ops(f: Family) -> &'static [&'static str] {
+    match f {
+        Family::Eq => &["==", "!="],
+        Family::Seq => &["===", "!=="],
+        Family::Rel => &["<", "<=", ">", ">="],
+        Family::Arith => &["+", "-", "*", "/", "%", "min", "max"],
+        Family::Coll => &["in", "merge"],
+        Family::Str => &["cat", "substr"],
+        Family::Path => &["var"],
+        Family::Missing => &["missing", "missing_some"],
+    }
+}
+
+fn operand_of_line(line: &str) -> Value {
+    match serde_json::from_str::<Value>(line) {
+        Ok(v) => v,
+        Err(_) => Value::String(line.to_string()),
+    }
+}
+
+const DEFAULT_DOC: &str = r#"{"a":{"b":[10,{"c":"héllo"},null],"":7,"1":"one"},"0":"zero","x.y":1,"s":"a😀b","n":null,"e":"","l":[[1,2],[3]]}"#;
+
+/// bytes -> (rule, data) for one operator family; None when the input is not text or has no operand
+pub fn decode_family(f: Family, bytes: &[u8]) -> Option<(Value, Value)> {
+    let text = std::str::from_utf8(bytes).ok()?;
+    let mut lines = text.split('\n');
+    let head = lines.next()?.as_bytes();
+    let ops = family_ops(f);
+    let op = ops[*head.first()? as usize % ops.len()];
+    let route = head.get(1).copied().unwrap_or(0);
+    let mut operands: Vec<Value> = lines.take(6).map(operand_of_line).collect();
+    if f == Family::Path || f == Family::Missing {
+        // first operand line is the data document
+        let data = if operands.is_empty() { Value::Null } else { operands.remove(0) };
+        let data = if route & 2 != 0 { serde_json::from_str(DEFAULT_DOC).unwrap_or(Value::Null) } else { data };
+        let args: Vec<Value> = if route & 1 != 0 {
+            // operands computed by `cat` / `merge` so that op-shaped values stay inert and keys are produced at run time
+            operands.iter().map(|v| if v.is_string() { json!({"cat": [v.clone()]}) } else if model::eval::contains_op_shaped(v) { Value::Null } else { v.clone() }).collect()
+        } else {
+            operands.iter().map(|v| if model::eval::contains_op_shaped(v) { Value::Null } else { v.clone() }).collect()
+        };
+        let mut m = Map::new();
+        if args.len() == 1 && route & 4 != 0 && !args[0].is_array() {
+            m.insert(op.to_string(), args[0].clone());
+        } else {
+            m.insert(op.to_string(), Value::Array(args));
+        }
+        return Some((Value::Object(m), data));
+    }
+    if operands.is_empty() {
+        return None;
+    }
+    let mut data = Map::new();
+    let mut args = vec![];
+    for (i, v) in operands.into_iter().enumerate() {
+        if route & 1 != 0 || model::eval::contains_op_shaped(&v) {
+            let k = format!("k{}", i);
+            args.push(json!({"var": k.clone()}));
+            data.insert(k, v);
+        } else {
+            args.push(v);
+        }
+    }
+    let mut m = Map::new();
+    if args.len() == 1 && route & 4 != 0 && !args[0].is_array() {
+        m.insert(op.to_string(), args[0].clone());
+    } else {
+        m.insert(op.to_string(), Value::Array(args));
+    }
+    Some((Value::Object(m), Value::Object(data)))
+}
+
+/// the family targets: implementation vs reference model on one operator application with fuzzer-written operands
+pub fn family(f: Family, bytes: &[u8]) -> Result<&'static str, String> {
+    let (r, d) = match decode_family(f, bytes) {
+        Some(x) => x,
+        None => return Ok("not decodable"),
+    };
+    let (m, _ctx) = model::eval(&r, &d);
+    if let Res::Unspec("over_budget") = m {
+        return Ok("over budget");
+    }
+    let out = imp::apply(&r, &d);
+    match (&m, &out) {
+        (_, Out::Panic(msg)) => Err(format!("PANIC: {} -- rule {} data {}", msg, r, d)),
+        (Res::Unspec(_), _) => Ok("unspecified"),
+        (Res::Err, Out::Ok(v)) => Err(format!("expected an error, got {} -- rule {} data {}", v, r, d)),
+        (Res::Err, _) => Ok("error"),
+        (Res::Ok(e), Out::Ok(v)) => {
+            if model::values_match(e, v) {
+                Ok("value")
+            } else {
+                Err(format!("expected {} got {} -- rule {} data {}", e, v, r, d))
+            }
+        }
+        (Res::Ok(e), Out::Err(msg)) => Err(format!("expected {} got Err({}) -- rule {} data {}", e, msg.chars().take(120).collect::<String>(), r, d)),
+    }
+}
